@@ -114,3 +114,20 @@ def stmt_of(node: ast.AST, pm) -> ast.stmt:
     while not isinstance(node, ast.stmt):
         node = pm[id(node)][0]
     return node
+
+
+class _SortMult(ast.NodeTransformer):
+    def visit_BinOp(self, node):
+        self.generic_visit(node)
+        if isinstance(node.op, ast.Mult) and ast.unparse(node.left) > ast.unparse(node.right):
+            node.left, node.right = node.right, node.left
+        return node
+
+
+def canon_text(text: str) -> str:
+    """Canonical spelling of an expression: operands of every product sorted (a*b == b*a exactly)."""
+    try:
+        tree = ast.parse(text, mode="eval")
+    except SyntaxError:
+        return text
+    return ast.unparse(_SortMult().visit(tree)).replace(" ", "")
